@@ -32,6 +32,10 @@ QUERIES = [
 ]
 FILE_QUERIES = ["(|D| D entry (pos < 3) offset)", "(|D| D name)", "(|D| [D unit offset])", "(|D| D entry (pos == 1) label \"%s\")",
                 "(|D| D entry (pos < 2) offset, D symbol (pos < 2) name)", "(|D| D entry !())", "(|D| 7)"]
+# queries whose result count depends on the input, so that some iterations match and others do not
+ARG_DEP_QUERIES = ["(== 1)", "(== 2) \"two\"", "(> 15)", "(!= 1)", "?(type == T_STR)", "(== 3) (1, 2)"]
+FILE_DEP_QUERIES = ["(|D| D entry ?TAG_enumerator name)", "(|D| D entry ?TAG_structure_type offset)",
+                    "(|D| D symbol (name == \"main\") name)", "(|D| D entry ?TAG_subprogram (pos < 9) name)"]
 ARGS = [("-a", "str"), ("-a", "x y"), ("--a", "5"), ("--a", "(1, 2)"), ("--a", "(1, 2, 3) 10 mul"), ("--a", "!()"), ("--a", "\"s\""),
         ("--a", "[1, 2]")]
 FILES = ["/repo/tests/a1.out", "/repo/tests/enum.o", "/repo/tests/nontrivial-types.o", "/repo/tests/y.o",
@@ -139,6 +143,7 @@ def expected(drv, case, handles):
         out = b""
         match = False
         errors = False
+        per_iter = []
         for combo in itertools.product(*lists):     # row-major: the last list varies fastest
             shown = []
             for i, (item, l) in enumerate(zip(combo, lists)):
@@ -149,6 +154,7 @@ def expected(drv, case, handles):
             if r["stderr"]:
                 err_lib = True
             count = 0
+            per_iter.append(len(r.get("res", [])))
             for st in r.get("res", []):
                 if q:
                     return {"rc": 0, "stdout": b"", "err_driver": None, "err_lib": None, "early": True}
@@ -167,12 +173,12 @@ def expected(drv, case, handles):
                 err_driver = True
                 if not q:
                     errors = True
-            elif c:
+            elif c and not q:       # -q: nothing is written to stdout, counts included
                 if with_header:
                     out += header + b":"
                 out += b"%d\n" % count
         rc = 2 if errors else (0 if match else 1)
-        return {"rc": rc, "stdout": out, "err_driver": err_driver, "err_lib": err_lib, "early": False}
+        return {"rc": rc, "stdout": out, "err_driver": err_driver, "err_lib": err_lib, "early": False, "iters": per_iter}
     finally:
         drv.req("qdestroy %d" % qid)
 
@@ -210,6 +216,11 @@ def check_case(drv, ev, case, handles, idx):
     ev.case(key=case.key(), nontrivial=nt)
     ev.label("source:" + case.source)
     ev.label("rc:%d" % exp["rc"])
+    it = exp.get("iters") or []
+    if len(it) >= 2 and any(it) and it[-1] == 0:
+        ev.label("iterations:match-then-none")
+    if len(it) >= 2 and it[0] == 0 and any(it):
+        ev.label("iterations:none-then-match")
     for f in case.flags:
         ev.label("flag:" + f)
     bad = None
@@ -257,6 +268,10 @@ def make_case(rnd):
     pool = list(QUERIES)
     if files:
         pool += FILE_QUERIES * 2
+        if not args:
+            pool += FILE_DEP_QUERIES * 2
+    if args:
+        pool += ARG_DEP_QUERIES * 2
     query = rnd.choice(pool)
     if source == "pos" and query == "":
         source = "-e"
@@ -338,7 +353,9 @@ def main(tier, seed):
                                "leak detection is off for the CLI process (LeakSanitizer would replace the exit status; leaks are C13's)"],
                   health={"all sources": all(ev.labels.get("source:" + s, 0) > 20 for s in ("-e", "-f", "-f-", "pos")),
                           "all statuses": all(ev.labels.get("rc:%d" % k, 0) > 20 for k in (0, 1, 2)),
-                          "laws": ev.labels.get("law:-a", 0) > 10 and ev.labels.get("law:sources", 0) > 10})
+                          "laws": ev.labels.get("law:-a", 0) > 10 and ev.labels.get("law:sources", 0) > 10,
+                          "iterations whose outcome differs": ev.labels.get("iterations:match-then-none", 0) > 10
+                          and ev.labels.get("iterations:none-then-match", 0) > 10})
 
 
 def replay(path):
